@@ -140,3 +140,7 @@ func Yield() {}
 func Thorough() bool { return thorough }
 
 var thorough = os.Getenv("VERIF_TIER") == "thorough"
+
+// Bool2 returns a boolean the executor forks on (both values explored as
+// separate shapes) instead of keeping it symbolic.
+func Bool2() bool { return Choice(2) == 1 }
